@@ -96,6 +96,13 @@ class Check:
                 print(f"VIOLATION property={self.pid} replay={path}")
                 print(f"  {text}")
         if self.violations:
+            import collections
+            skip = {"text", "name", "kinds", "label"}
+            groups = collections.Counter(
+                tuple(sorted((k, str(v)) for k, v in f.items() if k not in skip)) for f, _, _ in self.violations)
+            print("violating cases by feature:")
+            for g, n in groups.most_common(15):
+                print(f"  {n:6d} x " + " ".join(f"{k}={v}" for k, v in g))
             print(f"{self.pid} {self.tier}: {len(self.violations)} violating case(s)")
             return 1
         print(f"{self.pid} {self.tier}: ok ({wall:.1f}s) "
